@@ -1,15 +1,18 @@
 //! Rust -> Lean translator for the renet verification project.
 //!
-//! `translator --repo <repo root> --out <path to Src.lean>`
+//! `translator --repo <repo root> (--out <…/Generated/Src.lean> | --out-dir <…/Generated/Src>) [--module-prefix M] [--list-groups]`
 //!
-//! Parses the source files named in `manifest::MANIFEST` with `syn`, finds the selected items and
-//! emits ONE Lean file (namespace `RenetVerif.Src`) whose definitions call the primitives of
+//! Parses the source files named in `manifest::GROUPS` with `syn`, finds the selected items and emits one
+//! Lean file PER GROUP (`<out-dir>/<Group>.lean`, namespace `RenetVerif.Src.<crate>.<module>`) plus the umbrella
+//! `<out-dir>.lean` importing all of them.  The definitions call the primitives of
 //! `RenetVerif/Base/RustSem.lean`.  The Lean text is derived from the AST expression by expression
 //! and statement by statement (`trans.rs`); there are no per-function special cases.  Anything
 //! outside the supported subset stops the run with
 //!     TRANSLATE-ERROR <file>:<line>: <what>
-//! and a non-zero exit status (the output file is then overwritten with a file that does not compile,
-//! so a stale translation can never be checked).  The output is a deterministic function of the source text.
+//! (one line per failed group, suffixed ` [group X]`) and a non-zero exit status.  Only the file of the failed
+//! group is replaced by a stub that does not compile (so a stale translation can never be checked); all other
+//! groups are generated normally.  A call of a fn / inherent method of the same crate that is not in the manifest
+//! is FOLLOWED: the callee is located in the crate's sources and translated into the same group file.  The output is a deterministic function of the source text.
 //!
 //! Supported subset (everything else is a TRANSLATE-ERROR):
 //!   items      `const` (pure initialiser), `struct` with named fields, `enum` (unit / tuple / struct variants,
@@ -43,11 +46,16 @@
 //!              `&mut impl io::Read` / `&mut impl io::Write` parameters (cursor models; `read_exact(&mut buf[..])`,
 //!              `write_all`, `write`), calls that pass such cursors on, `Result` tail calls, `const N: usize`
 //!              generics (argument from turbofish or the array type of the `let`), `io::Error::new`, `i32` pass-through
+//!   stage 3    per-group output files and failure isolation; FOLLOWED calls (free fns / inherent methods of the same
+//!              crate that are not in the manifest are located and translated into the caller's group);
+//!              `Option::is_some_and(|x| e)`, `map_or(d, |x| e)`, `unwrap_or(v)`, `uN::leading_zeros/trailing_zeros`,
+//!              `for x in v.iter_mut()` / `for (i, x) in v.iter_mut().enumerate()` (≡ index loop with `x` an alias of `v[i]`)
 //!   not supported: `loop`, labelled loops, `break`/`continue` in `for`, closures, generics, traits, signed integers, floats,
 //!              references stored in data, `&mut` parameters other than `self` and the octets cursors,
 //!              `Err` returned from a `&mut self` method after `self` was mutated.
 
 mod doc;
+mod follow;
 mod globals;
 mod manifest;
 mod trans;
@@ -55,17 +63,34 @@ mod ty;
 
 use std::process::exit;
 
+/// a call of a fn / method that is not (yet) translated: the driver may follow it
+#[derive(Clone, Debug)]
+pub struct Missing {
+    pub self_ty: Option<String>,
+    pub name: String,
+}
+
+#[derive(Clone, Debug)]
 pub struct TErr {
     pub file: String,
     pub line: usize,
     pub msg: String,
+    pub missing: Option<Missing>,
 }
 pub type R<T> = Result<T, TErr>;
+
+fn usage() -> ! {
+    eprintln!("usage: translator --repo <repo root> (--out <…/Src.lean> | --out-dir <…/Src>) [--module-prefix <Lean module prefix>] [--list-groups]");
+    exit(2);
+}
 
 fn main() {
     let args: Vec<String> = std::env::args().collect();
     let mut repo: Option<String> = None;
     let mut out: Option<String> = None;
+    let mut out_dir: Option<String> = None;
+    let mut module_prefix: Option<String> = None;
+    let mut list = false;
     let mut i = 1;
     while i < args.len() {
         match args[i].as_str() {
@@ -77,61 +102,205 @@ fn main() {
                 out = Some(args[i + 1].clone());
                 i += 2;
             }
-            _ => {
-                eprintln!("usage: translator --repo <repo root> --out <path to Src.lean>");
-                exit(2);
+            "--out-dir" if i + 1 < args.len() => {
+                out_dir = Some(args[i + 1].clone());
+                i += 2;
+            }
+            "--module-prefix" if i + 1 < args.len() => {
+                module_prefix = Some(args[i + 1].clone());
+                i += 2;
+            }
+            "--list-groups" => {
+                list = true;
+                i += 1;
+            }
+            _ => usage(),
+        }
+    }
+    // `--out F.lean` ≡ `--out-dir F`: the directory of group files and the umbrella `<dir>.lean` next to it
+    let dir: Option<String> = match (&out_dir, &out) {
+        (Some(d), _) => Some(d.trim_end_matches('/').to_string()),
+        (None, Some(f)) => Some(f.trim_end_matches(".lean").to_string()),
+        (None, None) => None,
+    };
+    let repo = match repo {
+        Some(r) => r,
+        None => usage(),
+    };
+    let result = run(&repo);
+    if list {
+        for gname in manifest::group_names() {
+            let file = match &dir {
+                Some(d) => format!("{}/{}.lean", d, gname),
+                None => format!("<out-dir>/{}.lean", gname),
+            };
+            println!("group {} -> {}", gname, file);
+            for w in result.work.iter().filter(|w| w.group == gname) {
+                println!("    {}: {}{}", w.file, sel_text(&w.sel), if w.followed { "   (followed call)" } else { "" });
+            }
+        }
+        if dir.is_none() {
+            exit(0);
+        }
+    }
+    let dir = match dir {
+        Some(d) => d,
+        None => usage(),
+    };
+    let prefix = match module_prefix {
+        Some(p) => p,
+        None => {
+            let comps: Vec<&str> = dir.split('/').filter(|c| !c.is_empty()).collect();
+            match comps.iter().rposition(|c| *c == "RenetVerif") {
+                Some(ix) => comps[ix..].join("."),
+                None => {
+                    eprintln!("translator: cannot derive the Lean module prefix from `{}` (no `RenetVerif` path component): pass --module-prefix", dir);
+                    exit(2);
+                }
+            }
+        }
+    };
+    if let Err(e) = std::fs::create_dir_all(&dir) {
+        eprintln!("translator: cannot create {}: {}", dir, e);
+        exit(2);
+    }
+    let mut any_failed = false;
+    let names = manifest::group_names();
+    for gname in &names {
+        let path = format!("{}/{}.lean", dir, gname);
+        let text = match result.groups.get(gname) {
+            Some(Ok((body, imports))) => {
+                let mut t = String::new();
+                t.push_str(&format!("-- GENERATED by /verif/translator (group {}) from the Rust sources — do not edit\n", gname));
+                t.push_str("-- regenerate: translator --repo <repo root> --out-dir <directory of this file>\n");
+                t.push_str("import RenetVerif.Base.RustSem\n");
+                for im in imports {
+                    t.push_str(&format!("import {}.{}\n", prefix, im));
+                }
+                t.push_str("set_option linter.unusedVariables false\n");
+                t.push_str("namespace RenetVerif.Src\n");
+                t.push_str("open RenetVerif\n");
+                t.push_str("open RenetVerif.RustSem (Exec)\n");
+                t.push_str(body);
+                t.push_str("\nend RenetVerif.Src\n");
+                t
+            }
+            Some(Err(e)) => {
+                any_failed = true;
+                let line = format!("TRANSLATE-ERROR {}:{}: {} [group {}]", e.file, e.line, e.msg, gname);
+                println!("{}", line);
+                eprintln!("{}", line);
+                let msg = line.replace('"', "'").replace('\\', "/");
+                format!(
+                    "-- {}\n-- GENERATED by /verif/translator — translation of group {} FAILED, this file intentionally does not compile\nimport RenetVerif.Base.RustSem\ntheorem RenetVerif.Src.translate_error_{} : False := \"{}\"\n",
+                    msg, gname, gname, msg
+                )
+            }
+            None => continue,
+        };
+        if let Err(e) = std::fs::write(&path, text) {
+            eprintln!("translator: cannot write {}: {}", path, e);
+            exit(2);
+        }
+    }
+    // umbrella
+    let mut u = String::new();
+    u.push_str("-- GENERATED by /verif/translator — umbrella importing every group file; do not edit\n");
+    for gname in &names {
+        u.push_str(&format!("import {}.{}\n", prefix, gname));
+    }
+    if let Err(e) = std::fs::write(format!("{}.lean", dir), u) {
+        eprintln!("translator: cannot write {}.lean: {}", dir, e);
+        exit(2);
+    }
+    // stale group files of earlier manifests
+    if let Ok(rd) = std::fs::read_dir(&dir) {
+        for ent in rd.flatten() {
+            let n = ent.file_name().to_string_lossy().to_string();
+            if let Some(stem) = n.strip_suffix(".lean") {
+                if !names.iter().any(|g| g == stem) {
+                    let _ = std::fs::remove_file(ent.path());
+                }
             }
         }
     }
-    let (repo, out) = match (repo, out) {
-        (Some(r), Some(o)) => (r, o),
-        _ => {
-            eprintln!("usage: translator --repo <repo root> --out <path to Src.lean>");
-            exit(2);
-        }
-    };
-    match run(&repo) {
-        Ok(text) => {
-            if let Err(e) = std::fs::write(&out, text) {
-                eprintln!("translator: cannot write {}: {}", out, e);
-                exit(2);
-            }
-        }
-        Err(e) => {
-            println!("TRANSLATE-ERROR {}:{}: {}", e.file, e.line, e.msg);
-            eprintln!("TRANSLATE-ERROR {}:{}: {}", e.file, e.line, e.msg);
-            // fail-safe: never leave a stale generated file behind — the output does not compile
-            let msg = format!("TRANSLATE-ERROR {}:{}: {}", e.file, e.line, e.msg).replace('"', "'").replace('\\', "/");
-            let poison = format!(
-                "-- {}\n-- GENERATED by /verif/translator — translation FAILED, this file intentionally does not compile\nimport RenetVerif.Base.RustSem\ntheorem RenetVerif.Src.translate_error : False := \"{}\"\n",
-                msg, msg
-            );
-            let _ = std::fs::write(&out, poison);
-            exit(1);
-        }
+    if any_failed {
+        exit(1);
     }
 }
 
-fn run(repo: &str) -> R<String> {
-    // parse every file of the manifest once
-    let mut files: Vec<(String, syn::File)> = Vec::new();
-    for (path, _) in manifest::MANIFEST {
-        if files.iter().any(|(p, _)| p == path) {
-            continue;
-        }
-        let full = format!("{}/{}", repo.trim_end_matches('/'), path);
-        let text = std::fs::read_to_string(&full).map_err(|e| TErr {
-            file: path.to_string(),
-            line: 0,
-            msg: format!("cannot read source file: {}", e),
-        })?;
-        let parsed = syn::parse_file(&text).map_err(|e| TErr {
-            file: path.to_string(),
-            line: e.span().start().line,
-            msg: format!("syn parse error: {}", e),
-        })?;
-        files.push((path.to_string(), parsed));
+fn sel_text(s: &manifest::Sel) -> String {
+    use manifest::Sel::*;
+    match s {
+        Const(n) => format!("const {}", n),
+        Struct(n) => format!("struct {}", n),
+        StructView(n, f) => format!("struct {} (view: {})", n, f.join(", ")),
+        Enum(n) => format!("enum {}", n),
+        Fn(n) => format!("fn {}", n),
+        Method(t, n) => format!("fn {}::{}", t, n),
+        From(d, s) => format!("impl From<{}> for {}", s, d),
     }
-    let g = globals::Globals::build(&files)?;
-    trans::emit_all(&g, &files)
+}
+
+pub struct RunResult {
+    pub work: Vec<manifest::WorkItem>,
+    /// per group: body text and imported groups, or the error
+    pub groups: std::collections::BTreeMap<String, Result<(String, Vec<String>), TErr>>,
+}
+
+fn run(repo: &str) -> RunResult {
+    use std::collections::BTreeMap;
+    let mut cache = globals::FileCache::new(repo);
+    let mut work = manifest::work_list();
+    let names = manifest::group_names();
+    let mut rounds = 0;
+    loop {
+        rounds += 1;
+        let mut failed: BTreeMap<String, TErr> = BTreeMap::new();
+        for w in &work {
+            if let Err(e) = cache.ensure(&w.file) {
+                failed.entry(w.group.clone()).or_insert(e);
+            }
+        }
+        let g = globals::Globals::build(&work, &cache, &mut failed);
+        let mut groups: BTreeMap<String, Result<(String, Vec<String>), TErr>> = BTreeMap::new();
+        let mut retry = false;
+        for gname in &names {
+            if let Some(e) = failed.get(gname) {
+                groups.insert(gname.clone(), Err(e.clone()));
+                continue;
+            }
+            let items: Vec<(usize, &manifest::WorkItem)> =
+                work.iter().enumerate().filter(|(_, w)| &w.group == gname).map(|(i, w)| (i + 1, w)).collect();
+            g.take_used();
+            match trans::emit_group(&g, &cache, &items) {
+                Ok(body) => {
+                    let imports: Vec<String> = g.take_used().into_iter().filter(|x| x != gname).collect();
+                    // a group that depends on a failed group cannot be checked either, but its own file is still written
+                    groups.insert(gname.clone(), Ok((body, imports)));
+                }
+                Err((e, pos)) => {
+                    // follow a call of an untranslated fn / method of the same crate
+                    if rounds < 64 {
+                        if let Some(m) = &e.missing {
+                            let caller_idx = items[pos].0 - 1;
+                            let caller_file = work[caller_idx].file.clone();
+                            if let Some((file, sel)) = follow::locate(&mut cache, &caller_file, m) {
+                                let dup = work.iter().any(|w| w.file == file && follow::same_sel(&w.sel, &sel));
+                                if !dup {
+                                    work.insert(caller_idx, manifest::WorkItem { group: gname.clone(), file, sel, followed: true });
+                                    retry = true;
+                                    break;
+                                }
+                            }
+                        }
+                    }
+                    groups.insert(gname.clone(), Err(e));
+                }
+            }
+        }
+        if !retry {
+            return RunResult { work, groups };
+        }
+    }
 }
